@@ -131,17 +131,27 @@ ExpAcceptOK ==
     /\ Rec(H("AcceptOK", pipe.e, pipe.from, pipe.to))
     /\ UNCHANGED <<produced, persisted, mu, alive, running, mgr, bounds>>
 
-(* Accept returns an error (exporter failure, or DriverFacade not ready):    *)
-(* the pipeline waits PushRetryPeriod and sends the same batch again.        *)
+(* Accept returns an error (exporter failure): the pipeline waits             *)
+(* PushRetryPeriod (state "retry": no call is in flight, the select listens   *)
+(* to the stop channel and the timer) and sends the same batch again.         *)
+(* (A DriverFacade that is not ready yet fails the same way without the       *)
+(* exporter seeing anything: not an event, covered by "fetched" stuttering.)  *)
 ExpAcceptFail ==
     /\ pipe.st = "fetched"
     /\ nFail < MaxFail
     /\ nFail' = nFail + 1
     /\ pipe' = IF Mutant = "AdvanceOnFail"
                  THEN [pipe EXCEPT !.st = "idle", !.last = pipe.to, !.from = 0, !.to = 0]
-                 ELSE pipe
+                 ELSE [pipe EXCEPT !.st = "retry"]
     /\ Rec(H("AcceptFail", pipe.e, pipe.from, pipe.to))
     /\ UNCHANGED <<produced, persisted, mu, alive, running, mgr, ep, nStops, nResets, nRestarts, obs>>
+
+(* case <-time.After(PushRetryPeriod + jitter): continue -> a new Accept goroutine *)
+PipeRetry ==
+    /\ pipe.st = "retry"
+    /\ pipe' = [pipe EXCEPT !.st = "fetched"]
+    /\ Rec(H("Retry", pipe.e, pipe.from, pipe.to))
+    /\ UNCHANGED <<produced, persisted, mu, alive, running, mgr, ep, bounds, obs>>
 
 (* case err := <-errChan (nil): p.pipeline.LastLogID = last id of the batch; *)
 (* then the goroutine blocks on `ingestedLogs <- id` (it no longer listens   *)
@@ -163,11 +173,11 @@ Handoff ==
 
 (* case ch := <-p.stopChannel: (cancel();) close(ch); return.  Possible in   *)
 (* every select of Run; in state "acked" the select may pick either branch.  *)
-(* If the Accept goroutine is still out, its call may reach the exporter     *)
-(* later (ep[e].late).  Shutdown() returns in the manager.                   *)
+(* If the Accept goroutine is still out (state "fetched"), its call may reach *)
+(* the exporter later (ep[e].late).  Shutdown() returns in the manager.      *)
 PipeTakeStop ==
     /\ pipe.stopReq
-    /\ pipe.st \in {"idle", "fetched", "acked"}
+    /\ pipe.st \in {"idle", "fetched", "retry", "acked"}
     /\ JoinSubscriber => ep[pipe.e].sub = "idle"
     /\ mgr.pc = "wait"
     /\ mgr' = [mgr EXCEPT !.pc = "stopped"]
@@ -339,7 +349,7 @@ NextEpoch == Cardinality(DOMAIN ep) + 1
 
 PipelineStep ==
     \/ \E ps \in PageSizes : PipeFetch(ps)
-    \/ ExpAcceptOK \/ PipeAdvance \/ Handoff \/ PipeTakeStop
+    \/ ExpAcceptOK \/ PipeRetry \/ PipeAdvance \/ Handoff \/ PipeTakeStop
     \/ \E e \in DOMAIN ep : Closer(e)
 
 SubscriberStep == \E e \in DOMAIN ep : SubStore(e)
@@ -364,7 +374,7 @@ Spec == Init /\ [][Next]_vars
 Fairness ==
     /\ WF_vars(Produce)
     /\ WF_vars(\E ps \in PageSizes : PipeFetch(ps))
-    /\ WF_vars(ExpAcceptOK) /\ WF_vars(PipeAdvance) /\ WF_vars(Handoff) /\ WF_vars(PipeTakeStop)
+    /\ WF_vars(ExpAcceptOK) /\ WF_vars(PipeRetry) /\ WF_vars(PipeAdvance) /\ WF_vars(Handoff) /\ WF_vars(PipeTakeStop)
     /\ WF_vars(\E e \in DOMAIN ep : Closer(e))
     /\ WF_vars(SubscriberStep)
     /\ WF_vars(MgrContinue)
@@ -378,12 +388,13 @@ FairSpec == Spec /\ Fairness
 (* exporter calls and by launching manager operations; it cannot delay the internal  *)
 (* steps of the code.  Under this constraint such steps are taken as soon as they    *)
 (* are enabled, so that every schedule TLC reports can be forced on the real code.   *)
-InternalNames == {"Advance", "Handoff", "TakeStop", "Close", "StopEnd", "ShutdownRelease", "ShutdownEnd"}
+InternalNames == {"Retry", "Advance", "Handoff", "TakeStop", "Close", "StopEnd", "ShutdownRelease", "ShutdownEnd"}
 
 InternalEnabled ==
     \/ pipe.st = "acked"
+    \/ pipe.st = "retry"
     \/ (pipe.st = "sending" /\ ep[pipe.e].sub = "idle")
-    \/ (pipe.stopReq /\ pipe.st \in {"idle", "fetched", "acked"} /\ mgr.pc = "wait"
+    \/ (pipe.stopReq /\ pipe.st \in {"idle", "fetched", "retry", "acked"} /\ mgr.pc = "wait"
           /\ (JoinSubscriber => ep[pipe.e].sub = "idle"))
     \/ (mu = "free" /\ \E e \in DOMAIN ep : ep[e].closing)
     \/ (mgr.op = "stop" /\ mgr.pc = "stopped")
@@ -403,7 +414,7 @@ TypeOK ==
     /\ alive \in BOOLEAN /\ running \in BOOLEAN
     /\ mgr.op \in {"none", "stop", "start", "reset", "shutdown", "run"}
     /\ mgr.pc \in {"none", "wait", "stopped", "read", "drain"}
-    /\ pipe.st \in {"none", "idle", "fetched", "acked", "sending"}
+    /\ pipe.st \in {"none", "idle", "fetched", "retry", "acked", "sending"}
     /\ \A e \in DOMAIN ep : ep[e].sub \in {"idle", "storing"}
     /\ (mu = "mgr") <=> (mgr.op # "none" /\ mgr.pc # "drain")
     /\ (pipe.st # "none") => (pipe.e \in DOMAIN ep /\ ep[pipe.e].open)
